@@ -358,3 +358,100 @@ def c13_5(R):
         R.ok("pending-connect-keyed-by-syn-seq", D + "::on_control", "Connecting{seq_nr: header.seq_nr, token: the request's token}")
     else:
         R.fail([D + "::on_control", "Connecting-fields"], "a pending connect is not recorded under the SYN's sequence number and the request's token", instance="pending-connect-keyed-by-syn-seq")
+
+
+@rule("C13.6", ["C13"], ["E3"], "a cached SYN is never lost by a failed pairing attempt",
+      "In Dispatcher::cleanup_accept_queue a SYN taken from the backlog (syns.pop_front()) is, on every path to the next loop iteration or a return, either handed to match_syn_with_accept or pushed back "
+      "(syns.push_front); when match_syn_with_accept hands it back (ReceiverDead(syn), Full(syn, _)) it is pushed back as well. Otherwise a connection request that was waiting in the backlog silently "
+      "disappears because no acceptor / no free slot was available at that moment.")
+def c13_6(R):
+    b = R.body(D + "::cleanup_accept_queue")
+    match_calls = [t for t in b.calls() if call_matches(t, (D + "::match_syn_with_accept",))]
+    R.floor("match_syn_with_accept in cleanup_accept_queue", len(match_calls), 1)
+    n = [0]
+
+    def step(it, s):
+        if isinstance(it, Stmt):
+            root = extraction_root_call(b, it)
+            if root is not None and removal_kind(b, root, SYNS):
+                n[0] += 1
+                return "holding"
+            if it.rv.kind == "use" and it.rv.ops[0].place is not None and it.rv.ops[0].kind == "move":
+                vs = it.rv.ops[0].place.variants()
+                if vs and vs[-1] in ("ReceiverDead", "Full") and "Syn" in b.local_ty(it.place.local) if it.place.is_local else False:
+                    n[0] += 1
+                    return "holding"
+        elif it.kind == "call":
+            if call_matches(it, (D + "::match_syn_with_accept",)) and s == "holding":
+                return "free"
+            if call_on_field(b, it, ("VecDeque::push_front", "VecDeque::push_back"), SYNS) and s == "holding":
+                return "free"
+        return None
+    cuts = set(b.back_edges())  # the state is carried out of the loop: an exit path may still hold the SYN
+    lost = []
+
+    def on_cut(s, src, tgt):
+        if s == "holding":
+            lost.append(("next-iteration", src))
+        return ["free"]
+    res = typestate(b, ["free"], step, cut_edges=cuts, on_cut=on_cut)
+    for bb, states in res.exits.items():
+        if "holding" in states:
+            lost.append(("return", bb))
+    R.floor("SYN hand-over events in cleanup_accept_queue", n[0], 3)
+    if not lost:
+        R.ok("backlog-syn-not-lost", b.name, "every popped / returned SYN is matched or pushed back before the next iteration / return")
+    else:
+        kind, bb = lost[0]
+        R.fail([b.name, "syn-dropped-before", kind], "a SYN taken from the backlog can be dropped (%s reached while still holding it): the pending connection request is lost without a RESET" % kind,
+               where=b.blocks[bb].term.where(), witness=res.witness_lines(bb, "holding") if kind == "return" else [], instance="backlog-syn-not-lost")
+
+
+@rule("C13.7", ["C13", "C12"], ["E2", "E4"], "a connecting slot is released by the request it belongs to, and a filled slot is reported as filled",
+      "ConnectingPerAddr::pop_by_token / pop take the slot (Option::take, or the item selected by a find predicate) only under Connecting.token == token / Connecting.seq_nr == s for the function's own "
+      "argument; ConnectingPerAddr::insert returns true on the path that filled a slot (and only there), and Dispatcher::on_control advances next_connection_id by 2 on that result - otherwise two pending "
+      "connects to one peer share a connection id, or a dropped connect() frees someone else's slot.")
+def c13_7(R):
+    F = R.facts
+    for fn, fld in (("pop_by_token", "Connecting.token"), ("pop", "Connecting.seq_nr")):
+        b = R.body("socket::ConnectingPerAddr::" + fn)
+        sel = []
+        for bb_ in [b] + F.closures_of(b.name):
+            if bb_ is b:
+                sites = [t.bb for t in bb_.calls() if call_matches(t, ("Option::take",))]
+            else:
+                sites = [it.bb for it, cls in ret_assignments(bb_) if cls in ("const:1", "true")]
+            for sbb in sites:
+                ok = guarded(bb_, sbb, "eq", lambda o, bb_=bb_: trace(bb_, o).last_field == fld, lambda o, bb_=bb_: is_fn_param(bb_, trace(bb_, o), 2) and not [f for f in trace(bb_, o).fields if not f.startswith("tuple.")])
+                sel.append((bb_, sbb, ok))
+        body_sites = [ok for bb_, _, ok in sel if bb_ is b]
+        clo_sites = [ok for bb_, _, ok in sel if bb_ is not b]
+        by_find = clo_sites and all(clo_sites) and any(call_matches(t, ("Iterator::find", "Iterator::position", "Iterator::find_map")) for t in b.calls())
+        if (body_sites and all(body_sites)) or by_find:
+            R.ok("slot-selected-by-own-key", b.name, "taken only under %s == argument" % fld)
+        else:
+            R.fail([b.name, "slot-taken-not-under(%s==arg)" % fld], "%s releases a connecting slot whose %s does not equal the requested one (or compares with something else): another pending connect is cancelled / the SYN-ACK completes the wrong connect" % (fn, fld.split(".")[1]),
+                   where=b.where(), instance="slot-selected-by-own-key")
+    ins = R.body("socket::ConnectingPerAddr::insert")
+    fills = {s.bb for s in ins.stmts() if s.place.proj == ["*"] and s.rv.kind == "agg" and s.rv.j.get("variant") == "Some"} | {s.bb for s in ins.stmts() if field_update(ins, s) and field_update(ins, s).field == "ConnectingPerAddr.len" and field_update(ins, s).op == "+="}
+    rt = [(it, cls) for it, cls in ret_assignments(ins)]
+    t_after = [it for it, cls in rt if cls in ("const:1", "true")]
+    f_after = [it for it, cls in rt if cls in ("const:0", "false")]
+    ok_t = t_after and all(must_pass_blocks(ins, [it.bb], fills)[0] for it in t_after)
+    ok_f = all(it.bb not in ins.reachable(x) or it.bb in fills for it in f_after for x in fills) if f_after else True
+    if fills and ok_t and ok_f:
+        R.ok("insert-reports-fill", ins.name, "true exactly on the path that stored the request")
+    else:
+        R.fail([ins.name, "return-value-vs-fill", "true-after-fill=%s false-never-after-fill=%s" % (bool(ok_t), bool(ok_f))], "ConnectingPerAddr::insert's result no longer says whether the request was stored: the caller's connection-id bookkeeping diverges", where=ins.where(), instance="insert-reports-fill")
+    found = False
+    for b in fn_bodies(F, D + "::on_control"):
+        adv = [t for t in b.calls() if call_matches(t, ("AddAssign::add_assign",)) and trace(b, t.args[0]).last_field == "Dispatcher.next_connection_id"]
+        for t in adv:
+            found = True
+            on_true = any(c.kind == "call" and call_matches(c.call, ("socket::ConnectingPerAddr::insert",)) and truth for c, truth, d, *_ in controlling(b, t.bb))
+            if on_true and t.args[1].kind == "const" and t.args[1].scalar == 2:
+                R.ok("conn-id-advances", D + "::on_control", "next_connection_id += 2 when the connect was registered")
+            else:
+                R.fail([D + "::on_control", "next_connection_id", "step=%s under-insert-true=%s" % (t.args[1].scalar if t.args[1].kind == "const" else "?", on_true)], "the outgoing connection id is not advanced by 2 after a registered connect: concurrent connects to one peer reuse an id (or collide with the +1 send id)", where=t.where(), instance="conn-id-advances")
+    if not found:
+        R.fail([D + "::on_control", "next_connection_id-never-advanced"], "on_control no longer advances next_connection_id after registering a connect: every pending connect to a peer uses the same connection id", instance="conn-id-advances")
